@@ -241,7 +241,7 @@ func randD(r *Rng, depth int, o genOpts) *D {
 	case c < 74:
 		return dSub("RValue", sub())
 	case c < 75:
-		return &D{K: []string{"RVIdx", "RVFieldI", "RVFieldE"}[r.Intn(3)], N: randInt(r), S: QS(randPayload(r, o)), Sub: []*D{sub()}}
+		return &D{K: []string{"RVIdx", "RVFieldI", "RVFieldE", "RVIdxS"}[r.Intn(4)], N: randInt(r), S: QS(randPayload(r, o)), Sub: []*D{sub()}}
 	case c < 76:
 		k := []string{"RValueZero", "RValueField", "RVFieldT", "RVFieldT"}[r.Intn(4)]
 		if k == "RVFieldT" && !o.redactKinds && !o.safeKinds {
